@@ -10,8 +10,10 @@ Record fde := mkfde { f_start : N; f_len : N; f_rows : list (N * row); f_ok : bo
 
 Inductive pres := PHdr | POwnEh | POwnDebug.
 
+(* gimli: initial_address <= a < end_address, where end_address = initial_address.wrapping_add(len): an FDE whose
+   range runs past 2^64 contains nothing *)
 Definition fde_contains (f : fde) (a : N) : bool :=
-  (f_start f <=? a) && (a <? f_start f + f_len f).
+  (f_start f <=? a) && (a <? (f_start f + f_len f) mod W64).
 
 (* gimli: the row whose [start,end) contains the address; rows partition the FDE's range *)
 Fixpoint row_at (rows : list (N * row)) (off : N) (cur : option row) : option row :=
